@@ -113,6 +113,11 @@ func (r *Reconciler) Reconcile(ctx context.Context, request reconcile.Request) (
 	// now apply the strategy depending on the ReplicaSet state
 	strategyResult, err := r.applyStrategy(reqLogger, daemonsetInstance, now, strategyParams)
 	newStatus := strategyResult.NewStatus
+	if newStatus == nil {
+		// the strategy stopped before it computed a status (e.g. a rolling-update parameter that cannot be
+		// parsed): keep the current status so that the error is reported in it instead of dereferencing nil.
+		newStatus = strategyParams.NewStatus
+	}
 	result := strategyResult.Result
 
 	// for the reste of the actions we will try to execute as many actions as we can so we will store possible errors in a list
